@@ -81,6 +81,55 @@ def item_sx(d):
     raise ValueError(d)
 
 
+def vitem_sx(d):
+    """the item WITH its values (Spec/C03_TorchSel.vitem): index arrays as shape + row-major values, masks as the list of
+    their True positions in row-major order"""
+    k = d[0]
+    if k in ("int", "sl", "non", "ell"):
+        return item_sx(d)
+    if k == "list":
+        return [Sym("adv"), [len(d[1])], [int(v) for v in d[1]]]
+    if k == "range":
+        return [Sym("adv"), [d[1]], list(range(d[1]))]
+    if k in ("np", "ten"):
+        return [Sym("adv"), shape_of(d[1]), [int(v) for v in np.array(d[1], dtype=np.int64).reshape(-1).tolist()]]
+    if k == "ten0":
+        return [Sym("adv0"), int(d[1])]
+    if k in ("mask", "npmask"):
+        m = np.array(d[1], dtype=bool).reshape(shape_of(d[1]))
+        return [Sym("mask"), shape_of(d[1]), [[int(x) for x in p] for p in np.argwhere(m).tolist()]]
+    raise ValueError(d)
+
+
+def names_pattern(bs, named, ci):
+    """source-dim numbers used as dim names (None = unnamed dim); partially named patterns for a third of the named cases"""
+    if not named or not bs:
+        return None
+    nm = list(range(len(bs)))
+    if len(bs) >= 2 and ci % 3 == 0:
+        nm[ci % len(bs)] = None
+    return nm
+
+
+def offsets_of(sel, bs):
+    """model's sel-all result -> flat row-major offsets in a tensor of shape bs (None where the model gives no element)"""
+    if not (isinstance(sel, list) and sel and sel[0] == "some"):
+        return None
+    out = []
+    for e in sel[1]:
+        if not (isinstance(e, list) and e and e[0] == "some") or len(e[1]) != len(bs):
+            out.append(None)
+            continue
+        off = 0
+        for c, n in zip(e[1], bs):
+            if not (0 <= c < n):
+                off = None
+                break
+            off = off * n + c
+        out.append(off)
+    return out
+
+
 def rand_adv_values(rng, n, shape, bad=False):
     """index values for a dim of size n with the given shape (nested lists)"""
     def val():
@@ -259,14 +308,23 @@ def classify(descs, bs):
 
 def check_reads(R, cases):
     lines = []
-    for (bs, named, descs, single) in cases:
+    for ci, (bs, named, descs, single) in enumerate(cases):
         idx_sx = [item_sx(d) for d in descs]
         lines.append(sx([Sym("torch-shape"), list(bs), idx_sx]))
         lines.append(sx([Sym("getitem-bs"), list(bs), idx_sx]))
+        lines.append(sx([Sym("sel-all"), list(bs), [vitem_sx(d) for d in descs]]))
+        lines.append(sx([Sym("is-view"), idx_sx]))
+        nm = names_pattern(bs, named, ci)
+        lines.append(sx([Sym("getitem-names"), some([some(i) for i in nm]) if nm is not None else None, list(bs), idx_sx,
+                         all(d[0] != "npmask" for d in descs)]))
+        lines.append(sx([Sym("handed"), list(bs), idx_sx]))
+        lines.append(sx([Sym("nested-names"), some([some(i) for i in nm]) if nm is not None else None, list(bs), [2], idx_sx,
+                         all(d[0] != "npmask" for d in descs)]))
     m = R.model(lines)
     spec_bad = 0
     for ci, (bs, named, descs, single) in enumerate(cases):
-        spec, mod_bs = m[2 * ci], m[2 * ci + 1]
+        spec, mod_bs, mod_sel, mod_view, mod_names, mod_handed, mod_nnames = m[7 * ci:7 * ci + 7]
+        nm = names_pattern(bs, named, ci)
         case = {"op": "getitem", "bs": list(bs), "named": named, "index": descs, "single": single}
         sig = classify(descs, bs)
         py = to_py(descs)
@@ -283,7 +341,28 @@ def check_reads(R, cases):
             if proxy[0] != "ok" and spec_o is not None and not any(d[0] in ("list", "np", "ten", "ten0", "range") for d in descs):
                 spec_bad += 1
                 print(f"SPEC-MISMATCH TorchIndex bs={bs} idx={descs}: torch rejects, spec {spec_o}")
+        # (0b) the element map of the spec against real torch on an arange proxy: every element of the result
+        offs = None
+        if in_grammar and proxy[0] == "ok":
+            nel = int(np.prod(bs)) if bs else 1
+            src = torch.arange(nel, dtype=torch.int64).reshape(bs)
+            want_offs = src[idx].reshape(-1).tolist()
+            offs = offsets_of(mod_sel, bs)
+            if offs != want_offs:
+                spec_bad += 1
+                print(f"SPEC-MISMATCH TorchSel bs={bs} idx={descs}: torch {want_offs[:12]} spec {None if offs is None else offs[:12]}")
+                offs = None
+            else:
+                R.count("sel:validated-elements", len(want_offs))
+                if len(want_offs) > 1:
+                    R.count("sel:validated-cases-with->1-element")
+            # view vs copy of the spec against torch (a result without elements shares nothing observable)
+            if want_offs and bs and nel and (mod_view == "t") != shares(src[idx], src):
+                spec_bad += 1
+                print(f"SPEC-MISMATCH is_view bs={bs} idx={descs}: torch shares {shares(src[idx], src)} spec {mod_view}")
         td = make_td(bs, named)
+        if nm is not None:
+            td.names = [None if i is None else f"d{i}" for i in nm]
         got = call(lambda: td[idx])
         R.case(("get", tuple(bs), named, json.dumps(descs), single), nontrivial=len(descs) > 0,
                sample=case if ci % 3001 == 0 else None)
@@ -343,11 +422,48 @@ def check_reads(R, cases):
             mo = mod_bs[1] if isinstance(mod_bs, list) else "reject"
             if mo != list(got[1].batch_size):
                 R.mismatch("getitem-bs", case, list(got[1].batch_size), mo)
+            # names of the result (base.py::_get_names_idx) vs the model, as source-dim numbers
+            if nm is not None:
+                r = got[1]
+                have = [None if x is None else int(x[1:]) for x in r.names] if r._has_names() else None
+                want = "reject" if not isinstance(mod_names, list) else (None if mod_names[1] == "none" else
+                                                                         [None if e == "none" else e[1] for e in mod_names[1][1]])
+                if have != want:
+                    R.mismatch("getitem-names", dict(case, names=nm), have, want)
+                R.count("names:" + ("none" if have is None else "some"))
+                # the nested node (batch size bs + [2], names + [None]) is indexed with the same dispatched index
+                rn = r.get("n")
+                have_n = [None if x is None else int(x[1:]) for x in rn.names] if rn._has_names() else None
+                want_n = "reject" if not isinstance(mod_nnames, list) else (None if mod_nnames[1] == "none" else
+                                                                           [None if e == "none" else e[1] for e in mod_nnames[1][1]])
+                if have == want and have_n != want_n:
+                    R.mismatch("getitem-names:nested", dict(case, names=nm), have_n, want_n)
+            # which object reaches the leaves: the tensordict itself, or leaf[idx'] with the dispatched index
+            lib_self = got[1] is td
+            if lib_self != (mod_handed == "self"):
+                R.mismatch("getitem-dispatch", case, "self" if lib_self else "indexed", mod_handed)
+            if offs is not None and not sig["consumes_more_than_rank"]:
+                # element by element: leaf b (no feature dims) holds 3 * offset + 100, leaf a (feature dims [2]) holds
+                # 2 * offset + f + 1: the model's sel, and sel (bs ++ feat) (r ++ f) = sel bs r ++ f
+                r = got[1]
+                hb = call(lambda: [(v - 100) // 3 for v in r.get("b").reshape(-1).tolist()])
+                ha = call(lambda: [v - 1 for v in r.get("a").reshape(-1).tolist()])
+                if hb != ("ok", offs):
+                    R.mismatch("getitem-sel:b", case, hb[1] if hb[0] == "raise" else hb[1][:24], offs[:24])
+                elif ha != ("ok", [2 * o + f for o in offs for f in range(2)]):
+                    R.mismatch("getitem-sel:a(feature dims)", case, ha[1] if ha[0] == "raise" else ha[1][:24], offs[:24])
+                # memory sharing: the model's classification of the index vs what the library's result does
+                if offs and bs:
+                    lib_shares = shares(r.get("b"), td.get("b"))
+                    if lib_shares != (mod_view == "t"):
+                        R.mismatch("getitem-view", case, lib_shares, mod_view)
+                    R.count("view:" + ("view" if mod_view == "t" else "copy"))
         R.traces += 1
     return spec_bad
 
 
 def check_writes(R, cases):
+    frame = []
     for ci, (bs, named, descs, single) in enumerate(cases):
         descs = writable(R.rng, bs, descs)
         single = single and len(descs) == 1
@@ -419,6 +535,13 @@ def check_writes(R, cases):
             # dict values go through from_dict_instance with the indexed batch size: same rule
             R.oracle_fail("setitem:valid-write-rejected", case, {"tensordict": got[1]}, dict(sig, kind="valid-rejected"))
         elif got[0] == "ok" and ok_t:
+            if vkind in ("scalar", "tensor0") and not flat and not sig["consumes_more_than_rank"]:
+                # frame, against the model: the batch positions of leaf b that changed (every old value differs from the new one)
+                nel = int(np.prod(bs)) if bs else 1
+                old = (torch.arange(nel, dtype=torch.int64).reshape(bs) * 3 + 100) if bs else torch.tensor(100)
+                changed = sorted(torch.nonzero((td.get("b") != old).reshape(-1)).reshape(-1).tolist())
+                changed_a = sorted(torch.nonzero((td.get("a") != (torch.arange(nel * 2, dtype=torch.int64).reshape(*bs, 2) + 1)).reshape(-1)).reshape(-1).tolist())
+                frame.append((case, bs, descs, changed, changed_a))
             for k in ref:
                 have = td.get(k)
                 if have.shape != ref[k].shape or not torch.equal(have, ref[k]):
@@ -434,6 +557,155 @@ def check_writes(R, cases):
             R.oracle_fail("setitem:invalid-write-accepted", case, {"torch": {str(k): e for k, e in exp.items()}},
                           dict(sig, kind="invalid-accepted"))
         R.traces += 1
+    # the written positions = the image of the model's sel (and (image) x (all feature positions) for leaf a)
+    m = R.model([sx([Sym("sel-all"), list(bs), [vitem_sx(d) for d in descs]]) for (_, bs, descs, _, _) in frame])
+    for (case, bs, descs, changed, changed_a), mod_sel in zip(frame, m):
+        offs = offsets_of(mod_sel, bs)
+        want = None if offs is None or None in offs else sorted(set(offs))
+        R.count("write:frame-compared")
+        if want != changed:
+            R.mismatch("setitem-frame:b", case, changed[:24], None if want is None else want[:24])
+        elif changed_a != sorted(2 * o + f for o in want for f in range(2)):
+            R.mismatch("setitem-frame:a(feature dims)", case, changed_a[:24], want[:24])
+
+
+# ------------------------------------------------------------------ writes: model of __setitem__ (shapes and keys)
+def tree_sx(x):
+    """shape skeleton of a tensordict / nested dict of tensors as the model's vtree"""
+    if isinstance(x, torch.Tensor):
+        return [Sym("leaf"), list(x.shape)]
+    if isinstance(x, dict):
+        return [Sym("node"), [], [[k, tree_sx(v)] for k, v in x.items()]]
+    return [Sym("node"), list(x.batch_size), [[k, tree_sx(v)] for k, v in x.items()]]
+
+
+def tree_obs(x):
+    if isinstance(x, torch.Tensor):
+        return ["leaf", list(x.shape)]
+    return ["node", list(x.batch_size), sorted([k, tree_obs(v)] for k, v in x.items())]
+
+
+def tree_of_model(t):
+    if t[0] == "leaf":
+        return ["leaf", list(t[1])]
+    return ["node", list(t[1]), sorted([k, tree_of_model(c)] for k, c in t[2])]
+
+
+def perturb(rng, sh):
+    sh = list(sh)
+    k = rng.choice(["dim", "drop", "add", "one"])
+    if k == "dim" and sh:
+        i = rng.randrange(len(sh))
+        sh[i] = sh[i] + 1
+    elif k == "drop" and sh:
+        del sh[rng.randrange(len(sh))]
+    elif k == "one" and sh:
+        sh[rng.randrange(len(sh))] = 1
+    else:
+        sh.insert(rng.randrange(len(sh) + 1), rng.choice([1, 2]))
+    return sh
+
+
+def gen_write_value(rng, bs, T):
+    """(kind, python value or None when it cannot be built, model sexp)"""
+    kind = rng.choice(["scalar", "tensor", "tensor", "td", "td", "td", "td", "dict", "dict"])
+    if kind == "scalar":
+        return kind, -7, Sym("scalar")
+    if kind == "tensor":
+        vsh = rng.choice([T, T, T[1:], [1] + T, T + [2], [1, 1] + T[-1:], perturb(rng, T), []])
+        if int(np.prod(vsh)) > 4096:
+            vsh = T
+        return kind, torch.zeros(vsh, dtype=torch.int64) - 3, [Sym("tensor"), list(vsh)]
+    r = rng.random()
+    if r < 0.45:
+        vbs = list(T)
+    elif r < 0.7:
+        vbs = list(T[rng.randrange(0, len(T) + 1):])
+    elif r < 0.8:
+        vbs = []
+    else:
+        vbs = perturb(rng, T)
+
+    def lead():
+        q = rng.random()
+        return list(vbs) if q < 0.8 else (list(T) if q < 0.9 else perturb(rng, vbs))
+    keys = [k for k in ("a", "b", "n", "z", "m") if rng.random() < (0.6 if k in ("a", "b", "n") else 0.35)] or ["b"]
+    feats = {"a": [2], "b": [], "z": [2]}
+    src = {}
+    for k in keys:
+        if k in feats:
+            src[k] = torch.zeros(lead() + (feats[k] if rng.random() < 0.93 else perturb(rng, feats[k])), dtype=torch.int64) - 5
+        elif k == "n":
+            l = lead()
+            inner = {"c": torch.zeros(l + [2, 3], dtype=torch.int64) - 5}
+            if rng.random() < 0.25:
+                inner["w"] = torch.zeros(l + [2], dtype=torch.int64) - 5      # key missing from the nested destination
+            src[k] = (inner, rng.choice([l + [2], l + [2], l, []]))
+        else:
+            l = lead()
+            src[k] = ({"x": torch.zeros(l + [3], dtype=torch.int64) - 5}, rng.choice([l, l, l + [3], []]))
+    if kind == "td" and rng.random() < 0.15:
+        # a nested node without content (its batch size is reset, not checked, when the value's batch size is reset)
+        src["e"] = ({}, rng.choice([lead(), perturb(rng, vbs), []]))
+    if kind == "dict":
+        v = {k: (x[0] if isinstance(x, tuple) else x) for k, x in src.items()}
+        return kind, v, [Sym("dict"), tree_sx(v)]
+    try:
+        v = TensorDict({k: (TensorDict(x[0], batch_size=x[1]) if isinstance(x, tuple) else x) for k, x in src.items()}, batch_size=vbs)
+    except EXC:
+        return kind, None, None
+    return kind, v, [Sym("td"), tree_sx(v)]
+
+
+def check_setitem_model(R, cases):
+    """td[idx] = value on generated value SHAPES (exact / broadcastable / wrong), existing and missing keys, nested nodes:
+    accepted or rejected, and the shape skeleton of the destination afterwards, against Model/C03_SetItem.setitem"""
+    lines, todo, spec_bad = [], [], 0
+    for (bs, named, descs, single) in cases:
+        py = to_py(descs)
+        idx = py[0] if (single and len(py) == 1) else py
+        if sum(1 for d in descs if d[0] == "ell") > 1:
+            continue
+        proxy = call(lambda: list(torch.zeros(bs)[idx].shape))
+        if proxy[0] != "ok":
+            continue
+        T = proxy[1]
+        kind, v, vsx = gen_write_value(R.rng, list(bs), T)
+        if vsx is None:
+            R.count("wmodel:value-not-constructible")
+            continue
+        flat = R.rng.random() < 0.2
+        td = make_td(bs, False, flat=flat)
+        idx_sx = [item_sx(d) for d in descs]
+        lines.append(sx([Sym("setitem-full"), tree_sx(td), idx_sx, vsx]))
+        if kind == "tensor":
+            lines.append(sx([Sym("write-ok"), list(bs), [item_sx(d) for d in descs if d[0] != "ell"] if False else idx_sx, list(v.shape)]))
+        else:
+            lines.append(sx([Sym("write-ok"), list(bs), idx_sx, []]))
+        todo.append((bs, descs, single, idx, kind, v, td, T))
+    m = R.model(lines)
+    for i, (bs, descs, single, idx, kind, v, td, T) in enumerate(todo):
+        mod, mod_ok = m[2 * i], m[2 * i + 1]
+        case = {"op": "setitem-model", "bs": list(bs), "index": descs, "single": single, "value": kind,
+                "value_tree": sx(tree_sx(v)) if kind in ("td", "dict") else (list(v.shape) if kind == "tensor" else None)}
+        if kind == "tensor":
+            # torch's own acceptance rule for tensor[idx] = value, on a proxy of the batch shape (spec self-check)
+            t_ok = call(lambda: torch.zeros(bs, dtype=torch.int64).__setitem__(idx, v))[0] == "ok"
+            if t_ok != (mod_ok == "t"):
+                spec_bad += 1
+                print(f"SPEC-MISMATCH torch_write_ok bs={bs} idx={descs} value={list(v.shape)}: torch {t_ok} spec {mod_ok}")
+        got = call(lambda: td.__setitem__(idx, v))
+        have = ["ok", tree_obs(td)] if got[0] == "ok" else "reject"
+        want = ["ok", tree_of_model(mod[1])] if isinstance(mod, list) and mod[0] == "ok" else "reject"
+        R.case(("wmodel", tuple(bs), json.dumps(descs), single, json.dumps(case["value_tree"])), nontrivial=True,
+               sample=case if i % 1999 == 0 else None)
+        R.count("wmodel:" + kind + ":" + ("accepted" if got[0] == "ok" else "rejected"))
+        if kind in ("td", "dict") and got[0] == "ok" and len(have[1][2]) > (2 if "b2" in td.keys() and "a" not in td.keys() else 3):
+            R.count("wmodel:new-key-created")
+        if have != want:
+            R.mismatch("setitem-model", case, have if have == "reject" else {"accepted": have[1]}, want if want == "reject" else {"accepted": want[1]})
+        R.traces += 1
+    return spec_bad
 
 
 def consumption(d):
@@ -521,10 +793,18 @@ def main(R):
               "integer tensors rank 0..2, boolean masks rank 1..2 sized from the dims at the cursor; ~12% malformed stream: out-of-range "
               "ints/values, wrong mask shapes, step<=0) over all batch shapes of rank 0..3 with dims in {0,1,2,3}, plus an exhaustive small "
               "grid; reads and writes (scalar/tensor/tensordict/broadcast/dict/new-key values); distinct by (shape, names, index, value kind); "
-              "non-trivial = non-empty index")
-    R.assumptions = ["which elements tensor[idx] selects is torch's behaviour (trusted); leaves hold distinct integers so selection is visible",
-                     "Spec/C03_TorchIndex is validated against real torch on every generated case of this run"]
-    R.trusted = ["Spec/C03_TorchIndex.v (torch's two-stage indexing shape rule) — re-validated against torch in this run"]
+              "non-trivial = non-empty index.  Model streams: element map sel-all vs arange proxy and vs leaves b / a (feature dims), "
+              "names (fully / partially named), dispatch (self vs indexed) and view class, written positions of scalar writes vs image of sel, "
+              "setitem-model: value shapes exact / suffix / [] / perturbed for tensors, tensordicts and dicts with existing, missing and nested "
+              "keys (accept/reject + shape skeleton of the destination afterwards)")
+    R.assumptions = ["which elements tensor[idx] selects is torch's behaviour: Spec/C03_TorchSel.sel is my statement of it, compared element by "
+                     "element with torch.arange(n).reshape(bs)[idx] on every torch-accepted read of this run; leaves hold distinct integers so "
+                     "selection is visible",
+                     "Spec/C03_TorchIndex (shapes), Spec/C03_TorchSel.is_view (view vs copy) and Model/C03_SetItem.torch_write_ok (what "
+                     "tensor[idx] = value accepts) are validated against real torch on every generated case of this run",
+                     "kernel-level behaviour of writes with repeated target positions is outside the grammar (writable())"]
+    R.trusted = ["Spec/C03_TorchIndex.v (torch's two-stage indexing shape rule) — re-validated against torch in this run",
+                 "Spec/C03_TorchSel.v (element map, view class) — re-validated against torch in this run"]
     R.step_prove()
     ok = R.step_driver()
     if not ok:
@@ -535,6 +815,7 @@ def main(R):
     spec_bad = check_reads(R, cases)
     wcases = gen_cases(R, 8000 if R.quick else 100000, malformed_frac=0.05)
     check_writes(R, wcases)
+    spec_bad += check_setitem_model(R, gen_cases(R, 6000 if R.quick else 80000, malformed_frac=0.0))
     check_leafless(R)
     if spec_bad:
         raise RuntimeError(f"{spec_bad} SPEC-MISMATCH lines (machinery bug: Spec/C03_TorchIndex disagrees with torch)")
@@ -577,5 +858,7 @@ def replay(body):
     build_driver("C03")
     idx_sx = [item_sx(d) for d in descs]
     print("model:", run_model("C03", [sx([Sym("index-bs"), list(bs), idx_sx]), sx([Sym("torch-shape"), list(bs), idx_sx])]))
+    print("model sel-all / handed:", run_model("C03", [sx([Sym("sel-all"), list(bs), [vitem_sx(d) for d in descs]]),
+                                                       sx([Sym("handed"), list(bs), idx_sx])]))
     print(json.dumps(body.get("detail"), default=str))
     return 0
